@@ -66,7 +66,12 @@ class RoleSet:
 
     @staticmethod
     def from_dict(roles: Dict[str, Role]):
-        """# Convert a dict of `Role`s into a `RoleSet`."""
+        """# Convert a dict of `Role`s into a `RoleSet`.
+        Roles made without a name (`Host, Device = h.Roles(2)`) are called what the dict calls them.
+        Left unnamed they all compare equal, and every role-directed Signal takes the instance for its source."""
+        for key, role in roles.items():
+            if role.name is None:
+                role.name = key
         return RoleSet(name=None, inner=roles)
 
     """
